@@ -24,6 +24,7 @@ func init() {
 			ruleLookahead(c, r, "")
 			ruleOpMargin(c, r, "")
 			ruleRawCopy(c, r, "")
+			ruleEncAvail(c, r, "")
 			ruleFlushFailStop(c, r, "")
 			ruleLoopAdvanceExact(c, r, "")
 			ruleMatcherGuard(c, r, "", false)
